@@ -81,10 +81,9 @@ func literalTok(v interface{}) string {
 
 // rawOK: the raw-string syntax can spell s.
 func rawOK(s string) bool {
-	if strings.HasSuffix(s, "\\") || strings.Contains(s, "\\'") {
-		return false
-	}
-	return true
+	// only a TRAILING backslash cannot be written (it would escape the closing quote); a backslash in front of a
+	// quote can: `\'` is spelled `\\'`, which the lexer reads as a kept backslash followed by an escaped quote
+	return !strings.HasSuffix(s, "\\")
 }
 func rawTok(s string) string { return "'" + strings.Replace(s, "'", "\\'", -1) + "'" }
 
